@@ -7,8 +7,9 @@ ROOT = os.path.dirname(os.path.dirname(os.path.abspath(__file__)))
 
 CHECKS = {
     'C02': dict(
-        text='TLC enumerates every viable token prefix of the ParseEnum machine (three alphabets: grammar, header, '
-             'layout; plus one token past the first offending one) and checks NoDrop / LayoutErase / DeadStaysDead on the '
+        text='TLC enumerates every viable token prefix of the ParseEnum machine (alphabets: grammar, header, layout, '
+             'branch statements; continuations of fixed openings for a second register statement and for case statements; plus '
+             'one token past the first offending one) and checks NoDrop / LayoutErase / DeadStaysDead on the '
              'specification; every enumerated string and every single-token near miss of every accepted one is parsed by '
              'the real parser and the recorded outcome (class, tree, error position) is validated by TLC against '
              'JaqalParse!Step folded over the tokens. Exhaustive inside the stated token-length bound, nothing beyond.',
@@ -45,7 +46,7 @@ CHECKS = {
         design='5/C07', technique='TLA+ scoping model (binding by construction) + TLC-enumerated collision programs replayed into the parser + TLC validation'),
     'C03': dict(
         text='ExecEnum (AstEnum + JaqalExec) enumerates programs over an exact gate family (X H S R Pf CX SW CR CCX F, a gate '
-             'without unitary, idle gates) on 3 qubits reached directly, through a reversed slice alias, a named qubit, macro '
+             'without unitary, idle gates) on 3 qubits (also registers of 1 and of 4 qubits, gates on the highest qubit) reached directly, through a reversed slice alias, a named qubit, macro '
              'parameters and let-valued parameters, in loops and parallel blocks, and checks NormPreserved on the spec. Each '
              'program is run by run_jaqal_circuit with hook H3 on; TLC recomputes, with exact Gaussian-integer arithmetic '
              'over powers of sqrt 2 and the little-endian convention of the statement, the state of every visited '
@@ -78,7 +79,7 @@ CHECKS = {
              'integer hardware outputs are interpreted identically, frequencies count the readouts; the same programs are also '
              'executed twice (site rerun) and over gate matrices that are unitary to 8 digits only (site approx: views must '
              'still be normalised and the sampler must not fail).',
-        note='n in {2,3}; normalisation judged in floating point with 1e-9.',
+        note='n in {1,2,3,4}; normalisation judged in floating point with 1e-9.',
         design='5/C15', technique='TLA+ bit-order operators + recorded result views validated by TLC'),
     'C01': dict(
         text='Machine view (Conform_RT): state (circuit, text), actions Generate and Parse. TLC enumerates programs with the AstEnum '
